@@ -1,6 +1,7 @@
 import Huginn.Lemmas.SigText
 import Huginn.Lemmas.SigTextHttp
 import Huginn.Lemmas.SigTextDoc
+import Huginn.Lemmas.SigTextCanon
 import Huginn.Lemmas.SigTextBundledTcp
 import Huginn.Lemmas.SigTextBundledHttpA
 import Huginn.Lemmas.SigTextBundledHttpB
@@ -112,6 +113,46 @@ theorem kf_httpEmptyHorder_witness : ¬ FullHttpPrintParse := by
 example : WFHttpL ⟨.any, [⟨false, "Host".toList, none⟩, ⟨true, "Accept".toList, some ",*/*;q=".toList⟩],
     [⟨false, "Keep-Alive".toList, none⟩], "Firefox/".toList⟩ ∧
     ¬ Huginn.KF.C06.httpEmptyHorder ⟨.any, [⟨false, "Host".toList, none⟩], [], []⟩ := by decide +kernel
+
+/-! ### canonical lines: parse, then print -/
+
+/-- **Every canonical TCP signature line that parses, prints back to the same line.**  `CanonTcp` is
+lexical (it does not mention the parser): no numeral of the line has a leading zero and there is no
+`?n` with n > 255. -/
+theorem parse_print_canonical_tcp (l : Str) (sg : TcpSig) (h : parseTcpSigFull l = some sg)
+    (hc : CanonTcp l) : printTcpSig sg = l :=
+  parseTcpSig_canon h hc
+
+/-- with `tcp_print_parse`: on canonical text and well-formed values, print and parse are inverse
+bijections — a parsed canonical line is the *only* canonical line with that value -/
+theorem parse_canonical_injective (l₁ l₂ : Str) (sg : TcpSig) (h₁ : parseTcpSigFull l₁ = some sg)
+    (h₂ : parseTcpSigFull l₂ = some sg) (c₁ : CanonTcp l₁) (c₂ : CanonTcp l₂) : l₁ = l₂ := by
+  rw [← parse_print_canonical_tcp l₁ sg h₁ c₁, ← parse_print_canonical_tcp l₂ sg h₂ c₂]
+
+/-- non-vacuity: a bundled-style line is canonical (by the decidable check) and parses -/
+example : CanonTcp "*:64:0:*:mss*20,10:mss,sok,ts,nop,ws,eol+2,?77:df,id+,0+,ts1-:0".toList ∧
+    (parseTcpSigFull "*:64:0:*:mss*20,10:mss,sok,ts,nop,ws,eol+2,?77:df,id+,0+,ts1-:0".toList).isSome = true :=
+  ⟨canonTcp_of_check (by decide +kernel), by decide +kernel⟩
+
+/-- the hypothesis is needed: a leading zero parses but does not print back -/
+example : (parseTcpSigFull "4:064:0:*:*,*:::0".toList).map printTcpSig = some "4:64:0:*:*,*:::0".toList := by
+  decide +kernel
+
+/-- **Parsing an HTTP signature loses nothing**: for *every* text the parser accepts, printing the value
+read (before the name filter on `habsent`) reproduces the text exactly. -/
+theorem parse_print_http_raw (l r : Str) (raw : HttpSigL) (h : parseHttpSigRawL l = some (raw, r)) :
+    r = [] ∧ printHttpSigL raw = l :=
+  parseHttpSigRawL_inv h
+
+/-- **Every canonical HTTP signature line that parses, prints back to the same line**; canonical: the
+`habsent` segment is empty or has no nameless header (those are filtered away after parsing). -/
+theorem parse_print_canonical_http (l : Str) (s : HttpSigL) (h : parseHttpSigFullL l = some s)
+    (hc : HabsentCanon l) : printHttpSigL s = l :=
+  parseHttpSig_canon h hc
+
+/-- the hypothesis is needed: `1:Host:,A:x` loses the nameless header -/
+example : (parseHttpSigFullL "1:Host:,A:x".toList).map printHttpSigL = some "1:Host:A:x".toList := by
+  decide +kernel
 
 /-! ### the database loader -/
 
